@@ -1,5 +1,6 @@
 import Clikit.Drv.Util
 import Clikit.Model.Section
+import Clikit.Model.SectionIndent
 namespace Clikit.Drv.C15
 open Lean Clikit.Drv Clikit.Term Clikit.Section
 
@@ -21,6 +22,24 @@ def parseOp (j : Json) : R Op := do
   | "clearN" => return .clearN (← fNat j "i") (← fNat j "n")
   | o => throw s!"unknown op {o}"
 
+/-- an operation of a history with indentation: `create` may carry `indent` (what the section inherits),
+`{"op": "indent", "i", "n"}` changes the indentation of section `i` -/
+def parseIOp (j : Json) : R IOp := do
+  match (← fStr j "op") with
+  | "create" =>
+    match fOpt j "indent" with
+    | none => return .create 0
+    | some _ => return .create (← fNat j "indent")
+  | "indent" => return .indent (← fNat j "i") (← fNat j "n")
+  | _ => return .op (← parseOp j)
+
+/-- every `indent` names a section created before -/
+def validIndents : Nat → List IOp → Bool
+  | _, [] => true
+  | k, .create _ :: r => validIndents (k + 1) r
+  | k, .indent i _ :: r => decide (i < k) && validIndents k r
+  | k, .op _ :: r => validIndents k r
+
 def jSec (s : Sec) : Json :=
   Json.mkObj [("content", jStrs s.content), ("rows", jNat s.rows)]
 
@@ -32,6 +51,8 @@ section (creation order) after the op; the screen after interpreting everything 
 line-level terminal, starting below the `pre` lines; whether lexing the whole byte stream gives
 the command list back; `wf` / `anchored`: the deciders of the hypotheses of the theorems
 (`Props.C15.wf_decides`) on this history and on the screen the `pre` lines leave behind.
+Operations may carry indentation (`parseIOp`, model `SectionIndent`): `sim_state` / `sim_stream` whether the base model on the indented history
+(`flat`) gives the same sections / the same stream (`indent_simulates`).
 `c15.term {width, bytes}` -> the byte stream lexed and interpreted on an empty screen. -/
 def handle (m : String) (j : Json) : Option (R Json) :=
   match m with
@@ -41,13 +62,18 @@ def handle (m : String) (j : Json) : Option (R Json) :=
       let ansi ← fBool j "ansi"
       let pre ← (← fArr j "pre").toList.mapM asChars
       if !(pre.all lineOk) then throw "pre: a line contains a newline"
-      let ops ← (← fArr j "ops").toList.mapM parseOp
-      if !(validOps 0 ops) then throw "ops: index of a section that does not exist"
-      let tr := trace ansi w [] ops
+      let iops ← (← fArr j "ops").toList.mapM parseIOp
+      -- the base history the indented one simulates (`Props.C15.indent_simulates`); without indentation: itself
+      let ops := flat [] iops
+      if !(validOps 0 ops && validIndents 0 iops) then throw "ops: index of a section that does not exist"
+      let st0 : IState := { secs := [], ind := [] }
+      let tr := traceI ansi w st0 iops
       let cmds := tr.flatMap (·.1)
       let scr0 := execs w { rows := [], cur := 0 } (pre.map .print)
       let scr := execs w scr0 cmds
-      let fin := run ansi w [] ops
+      let finI := runI ansi w st0 iops
+      let fin := (finI.1.secs, finI.2)
+      let base := run ansi w [] ops
       return Json.mkObj [
         ("steps", jList (fun (p : List Cmd × List Sec) =>
             Json.mkObj [("bytes", jStr (emit p.1)), ("secs", jList jSec p.2.reverse)]) tr),
@@ -55,6 +81,8 @@ def handle (m : String) (j : Json) : Option (R Json) :=
         ("lex", .bool (lex (emit cmds) == some cmds)),
         ("run_agrees", .bool (fin.2 == cmds && some fin.1 == (tr.getLast?.map (·.2)).orElse (fun _ => some []))),
         ("wf", .bool (wfB w ops)),
+        ("sim_state", .bool (base.1 == fin.1)),
+        ("sim_stream", .bool (base.2 == fin.2)),
         ("anchored", .bool (anchoredB scr0)),
         ("stream", jStr (emit fin.2))]
   | "c15.term" => some do
